@@ -479,6 +479,26 @@ func feed(api string, payload []byte, framing string) callResult {
 			r.panic = o.Panic
 		}
 		return r
+	case "response-unparsed":
+		// ParseResponse handed a request whose form nobody parsed yet (its documented callers parse it first; a direct
+		// caller that does not still gets the error contract): the payload is the raw form body, or the raw query
+		var o spkit.Outcome
+		return guarded(func() (string, error) {
+			var req *http.Request
+			if framing == "b64" { // query string instead of body
+				req, _ = http.NewRequest("GET", spkit.SPACS, nil)
+				req.URL.RawQuery = string(payload)
+			} else {
+				req, _ = http.NewRequest("POST", spkit.SPACS, bytes.NewReader(payload))
+				req.Header.Set("Content-Type", "application/x-www-form-urlencoded")
+			}
+			a, err := sp.ParseResponse(req, []string{"id-req"})
+			o = spkit.Outcome{Assertion: a, Err: err}
+			if m := contract(o); m != "" {
+				return m, err
+			}
+			return "", err
+		})
 	case "artifact":
 		o := spkit.ParseArtifactXML(sp, payload, []string{"id-req"}, "id-artreq", spkit.SPACS)
 		r := callResult{err: o.Err, panic: o.Panic}
@@ -847,6 +867,9 @@ func checkBytes(c Case) pbt.Result {
 	}
 	if !ok {
 		return pbt.Result{Skip: true}
+	}
+	if c.API == "response-unparsed" {
+		payload = c.Data // the bytes ARE the form body (or, framing b64, the query string), unframed
 	}
 	usesDeflate := c.API == "logout-redirect" || c.API == "logout-request" || c.API == "authn-get"
 	res := pbt.Result{Classes: []string{"bytes", "bytes:" + c.API, "framing:" + c.Framing}}
@@ -1318,7 +1341,7 @@ var algIDs = []string{"", "", "-", " ", "urn:unknown", "http://www.w3.org/2000/0
 	"http://www.w3.org/2001/04/xmlenc#rsa-oaep-mgf1p", "http://www.w3.org/2009/xmlenc11#rsa-oaep", "http://www.w3.org/2001/04/xmlenc#rsa-1_5",
 	"http://www.w3.org/2001/04/xmlenc#aes128-cbc", "http://www.w3.org/2001/04/xmlenc#aes256-cbc", "http://www.w3.org/2009/xmlenc11#aes128-gcm", "http://www.w3.org/2001/04/xmlenc#tripledes-cbc", "http://www.w3.org/2001/04/xmlenc#kw-aes128"}
 
-var apis = []string{"response", "artifact", "logout-form", "logout-redirect", "logout-request", "authn-get", "authn-post", "metadata", "unmarshal-entity", "unmarshal-entities", "put-service"}
+var apis = []string{"response", "response-unparsed", "artifact", "logout-form", "logout-redirect", "logout-request", "authn-get", "authn-post", "metadata", "unmarshal-entity", "unmarshal-entities", "put-service"}
 var faults = []string{"context-cancelled", "good", "dial-error", "status-500", "status-302", "status-204", "truncated-body", "half-xml", "soap-fault", "wrong-envelope", "empty-body", "empty-soap-body", "no-soap-body", "two-bodies", "garbage", "html", "comment-only", "artifact-without-response", "artifact-without-status", "oversized", "nil-body-ok"}
 
 var nParts = struct{ resp, req, spmeta, idpmeta int }{
@@ -1715,6 +1738,12 @@ func enumDegenerate(_ string, emit func(Case)) {
 	for _, name := range fixtureNames {
 		for _, api := range fixtureAPIs[name] {
 			emit(Case{Kind: "fixture", Fixture: name, API: api})
+		}
+	}
+	// form-level malformations handed to ParseResponse unparsed, as body and as query
+	for _, body := range []string{"", "SAMLResponse=%ZZ", "SAMLResponse=abc&x=%", "SAMLart=a;b", "SAMLart=%zz", "%", "=", "&&&", "SAMLResponse", "SAMLResponse=PHg%2BPC94Pg%3D%3D", "a=b;c=d", "SAMLResponse=%u0041", "\x00=\xff"} {
+		for _, fr := range []string{"raw", "b64"} {
+			emit(Case{Kind: "bytes", Data: []byte(body), API: "response-unparsed", Framing: fr})
 		}
 	}
 }
